@@ -632,12 +632,13 @@ def parse_consts(text):
     while i < n:
         line = lines[i]
         if line.startswith("const ") or line.startswith("static "):
-            m = re.match(r"^(?:const|static(?: mut)?) (.*?): (.*) = const (.*);$", line)
-            if m and "promoted[" not in m.group(1):
+            NAME = r"(.*?(?:promoted\[\d+\]|\b[A-Za-z_][A-Za-z0-9_]*|_))"
+            m = re.match(r"^(?:const|static(?: mut)?) " + NAME + r": (.*) = const (.*);$", line)
+            if m:
                 out.setdefault(m.group(1).strip(), ("lit", m.group(2).strip(), m.group(3).strip()))
             else:
-                m = re.match(r"^(?:const|static(?: mut)?) (.*?): (.*) = \{$", line)
-                if m and "promoted[" not in m.group(1):
+                m = re.match(r"^(?:const|static(?: mut)?) " + NAME + r": (.*) = \{$", line)
+                if m:
                     j = i
                     while j < n and lines[j] != "}":
                         j += 1
